@@ -1,4 +1,5 @@
 import HC.Proofs.Verify
+import HC.Proofs.VerifyTotal
 /-!
 # C09 — no request or proof from a peer can panic the node
 
@@ -10,10 +11,18 @@ also a panic: it means non-termination).
 * `verify_tree_total_partial` : `verify_tree` returns a root or an error for **every** proof
   (block, hash and seek sections of any shape and length, any indices) — never a panic.
 
-Partial: `verify_upgrade` and the proof-construction side (`create_valueless_proof`) are not proved
-total yet; the panic sites there are listed in the table of `HC/Model/Proof.lean` and exercised by
-the correspondence run (arbitrary request tuples at boundary values, the C04 alteration set and
-arbitrary proofs under `catch_unwind` with a watchdog; the model's outcome class is compared).
+* `verify_upgrade_total`, **`verify_proof_total`** : `verify_upgrade` and the whole of `verify_proof`
+  return a changeset or an error for **every** proof, tree state and key — no panic, and no loop runs out
+  of fuel: the root loop's iterator index grows every round and stops at `to` (merging in `append_root`
+  never moves the right edge of the subtree to the left), the grow loop consumes a queued node per round,
+  the descent for additional nodes halves a power-of-two factor per round.
+
+Partial (`…_partial` stays on `verify_tree_total_partial` as the name the evidence refers to): the
+proof-construction side (`create_valueless_proof`) and the application step after verification
+(`byte_offset_in_changeset`, which walks the replica's own tree) are not proved total; their panic sites
+are listed in the table of `HC/Model/Proof.lean` and exercised by the correspondence run (arbitrary
+request tuples at boundary values, the C04 alteration set, added sections and arbitrary proofs under
+`catch_unwind` with a watchdog; the model's outcome class is compared).
 -/
 namespace HC.C09
 open HC HC.Tree HC.Codec HC.Flat
@@ -26,5 +35,12 @@ theorem climb_total (C : Crypto) (fuel : Nat) (q : NodeQueue) (it : Iter) (cur :
 theorem verify_tree_total_partial (C : Crypto) (block : Option DataBlock) (hash : Option DataHash)
     (seek : Option DataSeek) (cs : Changeset) : verifyTree C block hash seek cs ≠ .error .panic :=
   verifyTree_notPanic C block hash seek cs
+
+theorem verify_upgrade_total (C : Crypto) (fork : Nat) (u : DataUpgrade) (blockRoot : Option Node) (pk : Bytes)
+    (cs : Changeset) : verifyUpgrade C fork u blockRoot pk cs ≠ .error .panic :=
+  verifyUpgrade_notPanic C fork u blockRoot pk cs
+
+theorem verify_proof_total (C : Crypto) (t : Tree) (f : File) (p : Proof) (pk : Bytes) :
+    verifyProof C t f p pk ≠ .error .panic := verifyProof_notPanic C t f p pk
 
 end HC.C09
